@@ -183,6 +183,15 @@ func hostileAtom(r *prng.Rand) ([]byte, string) {
 			for i := range m {
 				m[i] = 0xff
 			}
+		} else if r.Chance(1, 2) && len(m) > 0 {
+			// a small value behind a long run of zero octets (a non-minimal encoding no writer produces)
+			for i := range m {
+				m[i] = 0
+			}
+			m[len(m)-1] = byte(r.Intn(128))
+			if len(m) > 2 && r.Bool() {
+				m[len(m)-2] = byte(r.Intn(256))
+			}
 		}
 		return tlv(byte(2+r.Intn(2)), m), "int"
 	case 4: // symbol with an extreme ID
@@ -298,4 +307,38 @@ func fractionNotBelowOne(r *prng.Rand) []byte {
 	p = append(p, varIntBytes(uint64(digits), true)...)
 	p = append(p, mag...)
 	return tlv(6, p)
+}
+
+// framedInvalidAtom returns a correctly framed binary value that is malformed in itself: a timestamp fraction not below
+// one, a float whose size (spelled with the VarUInt form) is not 0, 4 or 8, or a day that its month does not have
+// (29 February of a year that is no leap year — century years included — 30 February, 31 April).
+func framedInvalidAtom(r *prng.Rand) ([]byte, string) {
+	switch r.Intn(3) {
+	case 0:
+		return fractionNotBelowOne(r), "timestamp-fraction-not-below-one(framed)"
+	case 1:
+		n := []int{1, 2, 3, 5, 6, 7, 9, 16}[r.Intn(8)]
+		return append([]byte{0x4e, 0x80 | byte(n)}, make([]byte, n)...), "float-bad-size-long-form(framed)"
+	}
+	year, month, day := uint64(1900), uint64(2), uint64(29)
+	switch r.Intn(5) {
+	case 0:
+		year = []uint64{1700, 1800, 1900, 2100, 2200, 2300}[r.Intn(6)]
+	case 1:
+		year = uint64(4*r.Range(476, 524) + 1 + r.Intn(3))
+	case 2:
+		year, day = uint64(r.Range(1, 9999)), 30
+	case 3:
+		year, month, day = uint64(r.Range(1, 9999)), []uint64{4, 6, 9, 11}[r.Intn(4)], 31
+	default:
+		year, month, day = uint64(r.Range(1, 9999)), uint64(r.Range(1, 12)), 32
+	}
+	p := []byte{0x80}
+	p = append(p, varUIntBytes(year, false)...)
+	p = append(p, varUIntBytes(month, false)...)
+	p = append(p, varUIntBytes(day, false)...)
+	if r.Bool() {
+		p = append(p, 0x80, 0x80) // hour and minute
+	}
+	return tlv(6, p), "timestamp-day-not-in-month(framed)"
 }
